@@ -454,6 +454,7 @@ func propC01() *PropSpec {
 			js = append(js, jobsN("js", "VerifJSGroupPostfix", []int{0}, "x=(INNER)POST for 33 inner forms x 10 postfix forms: parentheses dropped only where the expression tree stays the same")...)
 			js = append(js, jobsN("js", "VerifJSBoolCoerce", []int{0}, "!!(E), E?true:false, E?Y:false ... with E = A op B over comparisons, negations and plain values: coercion only dropped for boolean E")...)
 			js = append(js, jobsN("js", "VerifJSDeclBody", []int{0}, "18 statement wrappers x 12 blocks holding a function / generator / async / class / let / const declaration x strict prologue x function nesting x KeepVarNames: no declaration becomes the body of if / else / loop / with / label, calls kept")...)
+			js = append(js, jobsN("js", "VerifJSDirective", []int{0}, "16 bodies with parenthesised / plain / late string statements x top level / function body x KeepVarNames: the directive prologues the parser reports are the same before and after")...)
 			js = append(js, jobsN("js", "VerifJSBuiltins", []int{0}, "22 programs x 2 targets: isNaN / Math.trunc / Math.abs calls on variables and locally bound `undefined`, run by the reference evaluator on symbolic argument values (undefined, null, booleans, NaN-free small numbers, strings)")...)
 			js = append(js, jobsN("js", "VerifJSDanglingElse", []int{0}, "9 nested if / else-if shapes x 3 body sets (blocks with lexical declarations): every else stays with its if")...)
 			return js
